@@ -133,12 +133,12 @@ class EsbDomain(Registry):
     def is_packet_compat(self, packet) -> bool:
         """Determine if a packet is an ESB packet.
         """
-        return isinstance(packet.metadata, ESBMetadata)
+        return isinstance(getattr(packet, "metadata", None), ESBMetadata)
 
     def convert_packet(self, packet) -> HubMessage:
         """Convert an ESB packet to SendPdu or SendBlePdu message.
         """
-        if isinstance(packet.metadata, ESBMetadata):
+        if isinstance(getattr(packet, "metadata", None), ESBMetadata):
             # Retransmission count is a sending option the connector may have
             # attached to the packet metadata
             retr_count = getattr(packet.metadata, "retransmission_count", None)
